@@ -93,6 +93,17 @@ func c17Compare(rows1, rows2 []string, tag string) {
 		}
 		verifAssert(w1.out == w2.out, "C17.out."+tag+cls)
 	}
+	if w1.failAt == 0 && mode != 1 {
+		// the call after a refused one (same process, healthy writers, default text): what the refused call left behind
+		// in either variant must not show
+		w3, w4 := newVerifWriter(), newVerifWriter()
+		e3 := Output(w3, &verifReader{lines: rows1})
+		e4 := wasm.Output(w4, &verifReader{lines: rows2})
+		verifAssert((e3 == nil) == (e4 == nil), "C17.acc."+tag+"/after-refusal")
+		if e3 == nil && e4 == nil {
+			verifAssert(w3.out == w4.out, "C17.out."+tag+"/after-refusal")
+		}
+	}
 	verifReach("C17.end")
 }
 
@@ -172,7 +183,8 @@ func init() {
 
 // VerifC17Long: the scanner's line limit in both variants, on the REAL bufio.Scanner (job flag realscan): one root
 // row at the limit (65535 bytes fit with their newline, one byte more does not) or at twice the limit, one arbitrary
-// name byte, optionally a short second root; text output. Same accept/reject decision, same output.
+// name byte, optionally a short second root; or a document of twenty 60000-byte roots (1.2 MB in all); text output.
+// Same accept/reject decision, same output.
 func VerifC17Long() {
 	b := verifBytes("byte", 1)
 	verifAssume(b[0] != '\n' && b[0] != '\r' && b[0] < 0x80)
@@ -191,6 +203,14 @@ func VerifC17Long() {
 	doc := "- " + strings.Repeat("a", n) + b + "\n"
 	if full && verifFlag("second") {
 		doc += "- z\n"
+	}
+	if verifFlag("bigDocument") {
+		// total size instead of row size: twenty roots of 60000 bytes each (1.2 MB, every row within the line limit)
+		doc = ""
+		for i := 0; i < 20; i++ {
+			doc += "- " + strings.Repeat(string(rune('a'+i)), 60000) + "\n"
+		}
+		doc += "- " + b + "\n"
 	}
 	w1, w2 := newVerifWriter(), newVerifWriter()
 	verifContext("C17.long")
